@@ -50,8 +50,26 @@ def run_one(sc, seed, tid):
     X, y = problem(comp, seed)
     if sc["dtype"] == "i64":
         X = np.round(X)              # integer design
+    if sc.get("design") == "contrast":
+        X = X.copy()
+        X[0, :] -= X.sum(axis=0)              # exact on the Z/4 lattice: every column sums to zero
+    start = sc.get("start", "cold")
+    w0 = None
+    if start != "cold":
+        rng = gen.rng_for(seed, "storage-start", comp, start)
+        T = () if y.ndim == 1 else (y.shape[1],)
+        s_, d_, _p = comp
+        fi_ = s_ in ("AndersonCD", "ProxNewton", "GroupBCD", "MultiTaskBCD")
+        w0 = np.zeros((X.shape[1] + int(fi_),) + T)
+        sup = rng.choice(X.shape[1], 3, replace=False)
+        w0[sup] = np.round(rng.standard_normal((3,) + T) * 4) / 8
+        if start == "warm_null_col":
+            X = X.copy()
+            X[:, [1, X.shape[1] - 1]] = 0.0           # no stored entry in CSC
+            w0[1] = 0.75
+            w0[X.shape[1] - 1] = -1.5
     f = rel.Facts(tid, dict(entry=sc["entry"], comp=list(comp), container=sc["container"], dtype=sc["dtype"],
-                            expected=sc["expected"], seed=seed))
+                            expected=sc["expected"], start=start, design=sc.get("design", "generic"), seed=seed))
     tol32 = sc["dtype"] == "f32"
 
     def execute(container, dtype):
@@ -62,8 +80,12 @@ def run_one(sc, seed, tid):
             dfd, pend, Xo, fi = _descs(s, d, p, X, y)
             if d == "QuadraticSVC":
                 Xr = SV.as_rep(Xo, container, dtype)
+            wi = Xwi = None
+            if w0 is not None:
+                wi = w0.copy()
+                Xwi = X @ wi[:X.shape[1]] + (wi[-1] if fi else 0.0)
             r = SV.run_solver(s, Xr, y, dfd, pend, fit_intercept=fi, tol=1e-5 if dtype == "f32" else 1e-10,
-                              **({"max_iter": 3000} if s == "FISTA" else {}))
+                              w_init=wi, Xw_init=Xwi, **({"max_iter": 3000} if s == "FISTA" else {}))
             return r["w"], r["exc"]
         est = _estimator(comp[0], X, y, tol=1e-5 if dtype == "f32" else 1e-10)
         try:
@@ -201,14 +223,16 @@ def run(prop, tier, seed):
         order = list(rng.permutation(len(scs)))
         for i in order:
             s = scs[i]
-            k1 = (s["entry"], s["container"], s["dtype"])
-            k2 = (s["entry"], tuple(s["comp"]))
+            k1 = (s["entry"], s["container"], s["dtype"], s.get("start"))
+            # every composition once per storage family (dense / sparse) and once per kind of start
+            k2 = (s["entry"], tuple(s["comp"]), s["container"].startswith("csc") and s["dtype"] == "f64",      # (CSR / COO are refused by raw solves)
+                  s.get("start"), s.get("design"))
             if k1 not in seen_rep or k2 not in seen_comp:
                 keep.append(s)
                 seen_rep.add(k1)
                 seen_comp.add(k2)
         for i in order:
-            if len(keep) >= 110:
+            if len(keep) >= 190:
                 break
             if scs[i] not in keep:
                 keep.append(scs[i])
@@ -230,7 +254,7 @@ def run(prop, tier, seed):
     for t in res:
         names = {c for c, _ in v.bad(t["id"])}
         meta = t["meta"]
-        ck.count(json.dumps({k: meta[k] for k in ("entry", "comp", "container", "dtype")}, sort_keys=True),
+        ck.count(json.dumps({k: meta[k] for k in ("entry", "comp", "container", "dtype", "start", "design")}, sort_keys=True),
                  meta.get("ref_exc") is None)
         ck.cov["traces_validated_against_impl"] += 1
         for e in t["events"]:
@@ -243,9 +267,9 @@ def run(prop, tier, seed):
                       estimator=(meta["comp"][0] if len(meta["comp"]) == 1 else None))
             ck.violation(c, m2, dict(kind="storage", replay_module="harness.checks.storage", property=prop,
                                      clause=c, scenario={k: meta[k] for k in ("entry", "comp", "container", "dtype",
-                                                                              "expected")}, seed=meta["seed"]))
+                                                                              "expected", "start", "design")}, seed=meta["seed"]))
         if len(ck.cov["samples"]) < 6:
-            ck.sample(dict(scenario={k: meta[k] for k in ("entry", "comp", "container", "dtype", "expected")},
+            ck.sample(dict(scenario={k: meta[k] for k in ("entry", "comp", "container", "dtype", "expected", "start", "design")},
                            exc=meta.get("exc"), verdict=sorted(names)))
     return ck.finish()
 
